@@ -40,7 +40,8 @@ def c01(p, sc):
     G = p.get("G", 3600)
     tasks = sc["tasks"]
     for rid, r in sc["resources"].items():
-        if not r["leaf"] and r["ledger"]:
+        # a start-offset reservation (used seconds without a usage entry) is not a booking
+        if not r["leaf"] and any(e["usage"] for e in r["ledger"].values()):
             bad.append(f"resource group {rid} holds bookings")
         for k, e in r["ledger"].items():
             tot = sum((F(s) for _, s in e["usage"]), Fraction(0))
@@ -311,7 +312,7 @@ def c10(p, sc):
             for tid, _ in e["usage"]:
                 if tid in kids:
                     bad.append(f"container {tid} occupies resource {rid}")
-        if not r["leaf"] and r["ledger"]:
+        if not r["leaf"] and any(e["usage"] for e in r["ledger"].values()):
             bad.append(f"resource group {rid} occupies time")
     return bad
 
